@@ -50,14 +50,12 @@ def classify_struct(eco, text, p, bad):
     if len(bad) == 1 and bad[0].startswith("inverted") and s == e + 1 and eco in ("npm", "jsr", "crates", "pnpm", "pypi") and 0 < s <= len(b) and b[s - 1:s] in (b'"', b"'"):
         return "F-C05-4"
     # F-C05-5: the value is a multi-line scalar (TOML multi-line strings, YAML block / multi-line flow scalars, a raw line
-    # break inside a JSON string): the reported line is the line where the VALUE NODE starts
-    claimed = None
-    lines = b.split(b"\n")
-    if p["line"] < len(lines):
-        claimed = sum(len(x) + 1 for x in lines[:p["line"]]) + p["col"]
-    lo = min(x for x in (s, e, claimed if claimed is not None else s))
-    hi = max(s, e)
-    if eco != "go" and b"\n" in b[max(0, lo - 4):min(len(b), hi + 4)] and all(("spans a line break" in x) or ("(line, column)" in x) for x in bad):
+    # break inside a JSON string): the range spans a line break, or the reported line is that of the VALUE NODE's start,
+    # which lies on an EARLIER line than the version text (same line with a wrong column is NOT this class)
+    actual_line = b[:s].count(b"\n") if s <= len(b) else None
+    def multi(x):
+        return ("spans a line break" in x) or ("(line, column)" in x and actual_line is not None and p["line"] < actual_line)
+    if eco != "go" and all(multi(x) for x in bad):
         return "F-C05-5"
     return None
 
